@@ -235,9 +235,87 @@ func (x *inst) oracles(key string, final bool) {
 			return
 		}
 	}
+	if deep && x.wants("crashopen") && m.Open {
+		if !x.crashOpenOracle() {
+			return
+		}
+	}
 	if deep && x.wants("reopen") && m.Open {
 		x.reopenOracle()
 	}
+}
+
+// crashOpenOracle: the process dies right now (the directory is copied as it is, nothing is closed) and the copy is
+// opened by the real code: every operation of the path had returned, so the copy must show the same chain, attributes,
+// size, data (and revision counter) as the live replica / the model - no effect may live in memory only.
+func (x *inst) crashOpenOracle() bool {
+	x.cnt["crashopen_checks"]++
+	cp := x.dir + "-copy"
+	os.RemoveAll(cp)
+	if err := copyDir(x.dir, cp); err != nil {
+		panic("copyDir: " + err.Error())
+	}
+	defer os.RemoveAll(cp)
+	live := x.chainNames()
+	attrsLive := x.srv.Replica().ListDisks()
+	srv2 := replica.NewServer("127.0.0.1:9602", cp, 512, "")
+	var chain []string
+	var got []byte
+	var size, rev int64
+	var attrs map[string]types.DiskInfo
+	err := x.guard("open-copy-after-death", func() error {
+		if e := srv2.Open(); e != nil {
+			return fmt.Errorf("open: %v", e)
+		}
+		defer srv2.Close()
+		r := srv2.Replica()
+		var e error
+		if chain, e = r.Chain(); e != nil {
+			return fmt.Errorf("chain: %v", e)
+		}
+		size = r.Info().Size
+		rev = r.GetRevisionCounter()
+		attrs = r.ListDisks()
+		got = make([]byte, size)
+		if size > 0 {
+			if _, e := srv2.ReadAt(got, 0); e != nil {
+				return fmt.Errorf("read: %v", e)
+			}
+		}
+		return nil
+	})
+	if len(x.viol) > 0 {
+		return false
+	}
+	if err != nil {
+		x.violate("death-reopen-failed", "death-reopen-failed", fmt.Sprintf("the directory as it is after the path cannot be opened: %v", err))
+		return false
+	}
+	if fmt.Sprint(chain) != fmt.Sprint(live) {
+		x.violate("death-changed-chain", "death-chain", fmt.Sprintf("chain of the live replica %v, after process death and reopen %v", live, chain))
+		return false
+	}
+	if size != int64(len(x.m.Live))*Sector {
+		x.violate("size-lost", "size-after-death", fmt.Sprintf("size after process death and reopen %d, model %d", size, len(x.m.Live)*Sector))
+		return false
+	}
+	for _, n := range live[1:] {
+		a, b := attrsLive[n], attrs[n]
+		if a.Parent != b.Parent || a.Removed != b.Removed || a.UserCreated != b.UserCreated {
+			x.violate("death-changed-attributes", "death-attributes", fmt.Sprintf("%s: live parent=%s removed=%v usercreated=%v, after process death and reopen parent=%s removed=%v usercreated=%v",
+				n, a.Parent, a.Removed, a.UserCreated, b.Parent, b.Removed, b.UserCreated))
+			return false
+		}
+	}
+	if want := ExpectBytes(x.m.Live, 0, len(x.m.Live)); string(want) != string(got) {
+		x.violate("read-mismatch", "read-mismatch-after-death", "data after process death and reopen: "+diffTags(got, x.m.Live, 0, x.m.NW))
+		return false
+	}
+	if x.wants("rev") && rev != x.m.Rev {
+		x.violate("revision-counter", "rev-mismatch-after-death", fmt.Sprintf("revision counter after process death and reopen %d, model %d", rev, x.m.Rev))
+		return false
+	}
+	return true
 }
 
 type diskMeta struct {
